@@ -97,6 +97,9 @@ type BatchProcessor struct {
 
 	// stopped holds the stopped state of the BatchProcessor.
 	stopped atomic.Bool
+	// shutdownDone is closed when the Shutdown call that performs the shutdown
+	// has finished.
+	shutdownDone chan struct{}
 
 	noCmp [0]func() //nolint: unused  // This is indeed used.
 }
@@ -126,6 +129,8 @@ func NewBatchProcessor(exporter Exporter, opts ...BatchProcessorOption) *BatchPr
 		batchSize:   cfg.expMaxBatchSize.Value,
 		pollTrigger: make(chan struct{}, 1),
 		pollKill:    make(chan struct{}),
+
+		shutdownDone: make(chan struct{}),
 	}
 	b.pollDone = b.poll(cfg.expInterval.Value)
 	return b
@@ -206,8 +211,17 @@ func (b *BatchProcessor) OnEmit(_ context.Context, r *Record) error {
 // Shutdown flushes queued log records and shuts down the decorated exporter.
 func (b *BatchProcessor) Shutdown(ctx context.Context) error {
 	if b.stopped.Swap(true) || b.q == nil {
+		if b.shutdownDone != nil {
+			// Do not report success while another call is still shutting down.
+			select {
+			case <-b.shutdownDone:
+			case <-ctx.Done():
+				return ctx.Err()
+			}
+		}
 		return nil
 	}
+	defer close(b.shutdownDone)
 
 	// Stop the poll goroutine.
 	close(b.pollKill)
